@@ -1644,6 +1644,11 @@ class Interp:
 
     def eq(self, a, b):
         """Abstract == with user __eq__ and forking on hash collisions."""
+        if isinstance(a, Seq) and isinstance(b, Seq) and not a.has_seg() and not b.has_seg() and getattr(a, "ucls", None) is None and getattr(b, "ucls", None) is None:
+            # sequences compare element-wise, each pair with its own (possibly user-defined) equality
+            if (a.kind == "tuple") != (b.kind == "tuple") or len(a.items) != len(b.items):
+                return False
+            return all(x is y or self.eq(x, y) for x, y in zip(a.items, b.items))
         for x, y in ((a, b), (b, a)):
             k = x.cls if isinstance(x, Obj) else (x.meta if isinstance(x, ClassV) else None)     # a class compares through its metaclass
             if k is not None:
@@ -1662,6 +1667,8 @@ class Interp:
         whose __eq__ and __hash__ disagree (value equality next to an inherited identity hash)."""
         if a is b:
             return True
+        if isinstance(a, Seq) and isinstance(b, Seq) and a.kind == "tuple" and b.kind == "tuple" and not a.has_seg() and not b.has_seg():
+            return len(a.items) == len(b.items) and all(self.heq(x, y) for x, y in zip(a.items, b.items))     # a tuple's hash combines its elements' hashes
         for x in (a, b):
             k = x.cls if isinstance(x, Obj) else (x.meta if isinstance(x, ClassV) else None)
             if k is not None:
